@@ -1354,6 +1354,18 @@ impl Service {
         let key = kbucket::Key::from(node_id);
         match new_status {
             ConnectionStatus::Connected(enr, direction) => {
+                // A session can report a record that is older than the stored one (the record of
+                // the contact a request was sent to, while discovery or the user has stored a
+                // newer version in the meantime). Never go back to an older record.
+                let enr = match self.kbuckets.write().entry(&key) {
+                    kbucket::Entry::Present(entry, _) if entry.value().seq() >= enr.seq() => {
+                        entry.value().clone()
+                    }
+                    kbucket::Entry::Pending(entry, _) if entry.value().seq() >= enr.seq() => {
+                        entry.value().clone()
+                    }
+                    _ => enr,
+                };
                 // attempt to update or insert the new ENR.
                 let status = NodeStatus {
                     state: ConnectionState::Connected,
